@@ -429,9 +429,11 @@ def formulas_and_degrees(ctx):
                 # canonical label for the one-place deviation "height of the
                 # previous surface": classical with y_k -> y_{k-1}
                 ym = R('ya', 'k-1')
-                alt = Rat(ref[0].n.subst(sorted(y.atoms())[0], ym.n),
-                          ref[0].d.subst(sorted(y.atoms())[0], ym.n))
-                if sym.eq(form, alt):
+                alts = {'axial colour':
+                        -ym * i / (nk * uk) * (dn - n / n1 * dn1),
+                        'lateral colour':
+                        -ym * ip / (nk * uk) * (dn - n / n1 * dn1)}
+                if key in alts and sym.eq(form, alts[key]):
                     dig = 'marginal height taken at k-1'
             fd = ctx.finding(
                 'SURFACE-FORMULA', m, m.node,
